@@ -13,6 +13,7 @@ def check(ctx):
     params.set_prms_refusals(ctx, 'C12-R6')
     exceptions.locals_bound_before_use(ctx, 'C12-R7', scope='params')
     params.same_loader(ctx, 'C12-R8')
+    params.stateless_routes(ctx, 'C12-R9')
     ctx.undecided += ['equality of YAML-loaded values and Python literals of the same spelling',
                       'that ruamel/yaml loaders return equal objects for equal files']
     ctx.assumptions += ['copy.deepcopy returns an object sharing no mutable state with its argument']
